@@ -87,6 +87,9 @@ def build_jobs(tier, seed, for_c10=False):
             offs = range(0, len(t) + 1) if rng.random() < 0.5 or len(t) <= 2 else [0, rng.randint(0, len(t)), len(t)]
             for k in offs:
                 cases.append((k, t))
+            if len(t) <= 1 or rng.random() < 0.1:
+                # an offset beyond the end: the text from there on is empty
+                cases.append((len(t) + rng.choice([1, 2, 5]), t))
         entries = ['__module__', 'start', 'K', 'N'] + rng.sample(['A', 'B', 'C'], 1)
         jobs.append({'id': len(jobs), 'text': text, 'cases': cases, 'entries': entries,
                      'check_shift': not with_ignore or True, 'check_linecol': True, 'fuel': 120,
